@@ -389,7 +389,14 @@ func (h *handler) handleMessage(ctx context.Context, msg hwebsocket.Msg, respond
 }
 
 func (h *handler) disconnect(err error) {
-	h.disconnectChan <- err
+	select {
+	case h.disconnectChan <- err:
+
+	default:
+		// Disconnect causes are already pending: one is enough. The main
+		// loop is the only consumer and also calls disconnect, so it must
+		// never block here.
+	}
 }
 
 func (h *handler) handleDisconnect(err error) {
